@@ -37,6 +37,15 @@ import (
 // timeout per exchange.
 const upsTimeout = 150 * time.Millisecond
 
+// Request contexts: most queries get a deadline that is clearly longer than the
+// upstream timeout but short, so that a tree which spends the whole request
+// deadline on a silent upstream stays cheap to check; the long one is far beyond
+// anything a loaded machine can consume.
+const (
+	shortCtx = time.Second
+	longCtx  = 10 * time.Second
+)
+
 // ---------------------------------------------------------------------------
 // stub behaviours
 
@@ -199,10 +208,11 @@ type stub struct {
 	// the reply datagram twice.  Afterwards the stub behaves as scripted.
 	armed string
 	// tcpOff: no TCP listener (a UDP-only server)
-	tcpOff bool
-	ip     net.IP
-	port   int
-	addr   netip.AddrPort
+	tcpOff    bool
+	flushSeen int
+	ip        net.IP
+	port      int
+	addr      netip.AddrPort
 
 	mu    sync.Mutex
 	mode  mode
@@ -381,6 +391,40 @@ func (s *stub) setMode(m mode) error {
 	return nil
 }
 
+const flushSuffix = ".flush.c17."
+
+// flush is a barrier: it sends a marker datagram to the stub's UDP socket and
+// waits until the stub has seen it; every datagram that was queued before has
+// been logged by then.
+func (s *stub) flush() bool {
+	s.mu.Lock()
+	open, target := s.open, s.flushSeen+1
+	s.mu.Unlock()
+	if !open {
+		return true
+	}
+	c, err := net.Dial("udp4", s.addr.String())
+	if err != nil {
+		return false
+	}
+	defer c.Close()
+	m := &dns.Msg{MsgHdr: dns.MsgHdr{Id: 1}, Question: []dns.Question{{Name: "m" + flushSuffix, Qtype: dns.TypeA, Qclass: dns.ClassINET}}}
+	b, _ := m.Pack()
+	if _, err = c.Write(b); err != nil {
+		return false
+	}
+	for k := 0; k < 3000; k++ {
+		s.mu.Lock()
+		seen := s.flushSeen
+		s.mu.Unlock()
+		if seen >= target {
+			return true
+		}
+		time.Sleep(time.Millisecond)
+	}
+	return false
+}
+
 func (s *stub) arm(kind string) { s.mu.Lock(); s.armed = kind; s.mu.Unlock() }
 
 func (s *stub) isArmed() bool { s.mu.Lock(); defer s.mu.Unlock(); return s.armed != "" }
@@ -391,6 +435,12 @@ func (s *stub) handle(raw []byte, netw string) [][]byte {
 	if err := req.Unpack(raw); err != nil || len(req.Question) == 0 {
 		s.mu.Lock()
 		s.log = append(s.log, rec{T: now, Net: netw, Name: "<unparsable>", Mode: s.mode})
+		s.mu.Unlock()
+		return nil
+	}
+	if netw == "udp" && strings.HasSuffix(req.Question[0].Name, flushSuffix) {
+		s.mu.Lock()
+		s.flushSeen++
 		s.mu.Unlock()
 		return nil
 	}
@@ -572,7 +622,8 @@ type stepSpec struct {
 	Name   string   `json:"name,omitempty"`
 	Qtype  uint16   `json:"qtype,omitempty"`
 	ID     uint16   `json:"id,omitempty"`
-	Ctx    string   `json:"ctx,omitempty"` // "refresh": "short" = context deadline 60 ms (shorter than the upstream timeout), "cancel" = cancelled after 50 ms
+	CtxMs  int      `json:"request_deadline_ms,omitempty"` // "query": deadline of the request context (0 = 10 s)
+	Ctx    string   `json:"ctx,omitempty"`                 // "refresh": "short" = context deadline 60 ms (shorter than the upstream timeout), "cancel" = cancelled after 50 ms
 	Count  int      `json:"count,omitempty"`
 	Arm    *armSpec `json:"arm,omitempty"`     // before the step: arm a one-shot extra message on a main
 	TCPOff []int    `json:"tcp_off,omitempty"` // mains whose stub has no TCP listener during the step (UDP-only servers)
@@ -674,6 +725,12 @@ func genCase(r *vkit.Run, stream string, idx, nSteps int) caseSpec {
 			// (1-1/M)^(24M) < 1e-12: a main in rotation is chosen at least once
 			st.Count = 24 * cs.M
 		}
+		if op == "query" {
+			st.CtxMs = int(shortCtx.Milliseconds())
+			if rng.IntN(25) == 0 {
+				st.CtxMs = int(longCtx.Milliseconds())
+			}
+		}
 		if op == "query" || op == "burst" {
 			qn++
 			st.Name = randCase(rng, fmt.Sprintf("q%d.%s%d.c17.verif.test.", qn, stream, idx))
@@ -692,6 +749,26 @@ func genCase(r *vkit.Run, stream string, idx, nSteps int) caseSpec {
 	tpl := (idx / 36) % 4 // 0: extra-message template + random walk, 1,2: back-off / context templates, 3: pooled-connection template
 	if cs.F > 0 && tpl != 0 && rng.IntN(4) == 0 {
 		add("init", "")
+	}
+	if cs.F > 0 {
+		// silent mains while they are still in rotation (no Refresh in
+		// between): every query that picks one must, after the upstream
+		// timeout, be tried once on a fallback
+		saved := append([]mode(nil), cur...)
+		all := rng.IntN(2) == 0
+		ns := 0
+		for i := 0; i < cs.M; i++ {
+			if all || rng.IntN(2) == 0 || (i == cs.M-1 && ns == 0) {
+				cur[i] = mSilent
+				ns++
+			}
+		}
+		for i := cs.M; i < n; i++ {
+			cur[i] = []mode{mUp, mUp, mUp, mUpCase, mTrunc, mServfail, mClosed, mSilent}[rng.IntN(8)]
+		}
+		add("query", "")
+		add("query", "")
+		copy(cur, saved)
 	}
 	if cs.F == 0 && rng.IntN(2) == 0 {
 		// no fallbacks, initial health check enabled, mains failing at
@@ -1313,6 +1390,71 @@ func (fx *fixture) close() {
 	}
 }
 
+// settle waits until every request the handler has sent so far is in the
+// stubs' logs: a barrier on every UDP socket, then until the logs stop growing
+// (requests over TCP).
+func (fx *fixture) settle() bool {
+	for _, s := range fx.all() {
+		if !s.flush() {
+			return false
+		}
+	}
+	prev, stable := -1, 0
+	for k := 0; k < 60 && stable < 3; k++ {
+		n := 0
+		for _, s := range fx.all() {
+			n += s.logLen()
+		}
+		if n == prev {
+			stable++
+		} else {
+			stable = 0
+		}
+		prev = n
+		time.Sleep(5 * time.Millisecond)
+	}
+	return true
+}
+
+// explainedBySlowStub reports whether an observation that matches no
+// legitimate course becomes legitimate if stubs that did receive the query (in
+// a replying mode) were too slow for the handler, i.e. counted as timed out.
+// Only such outcomes of a slow call are timing-dependent.
+func explainedBySlowStub(cand [][]bool, mm, fm []mode, nets []string, o queryObs, xm int, xfb bool) bool {
+	type ref struct {
+		main bool
+		i    int
+	}
+	var c []ref
+	for _, i := range o.StubMains {
+		if mm[i] != mSilent {
+			c = append(c, ref{true, i})
+		}
+	}
+	for _, j := range o.StubFbs {
+		if fm[j] != mSilent {
+			c = append(c, ref{false, j})
+		}
+	}
+	for mask := 1; mask < 1<<len(c); mask++ {
+		m2 := append([]mode(nil), mm...)
+		f2 := append([]mode(nil), fm...)
+		for b, x := range c {
+			if mask>>b&1 == 1 {
+				if x.main {
+					m2[x.i] = mSilent
+				} else {
+					f2[x.i] = mSilent
+				}
+			}
+		}
+		if _, key, _, _, _ := judge(cand, m2, f2, nets, o, xm, xfb); key == "" {
+			return true
+		}
+	}
+	return false
+}
+
 func (fx *fixture) setModes(ms []mode) error {
 	for i, s := range fx.all() {
 		if err := s.setMode(ms[i]); err != nil {
@@ -1329,13 +1471,13 @@ type qResult struct {
 }
 
 // doQuery sends one query through the handler.
-func (fx *fixture) doQuery(name string, qtype, id uint16) (req *dns.Msg, rw *recRW, err error, c0, c1 time.Time) {
+func (fx *fixture) doQuery(name string, qtype, id uint16, ctxDur time.Duration) (req *dns.Msg, rw *recRW, err error, c0, c1 time.Time) {
 	req = &dns.Msg{
 		MsgHdr:   dns.MsgHdr{Id: id, RecursionDesired: true},
 		Question: []dns.Question{{Name: name, Qtype: qtype, Qclass: dns.ClassINET}},
 	}
 	rw = &recRW{}
-	ctx, cancel := context.WithTimeout(context.Background(), 10*time.Second)
+	ctx, cancel := context.WithTimeout(context.Background(), ctxDur)
 	defer cancel()
 	c0 = time.Now()
 	err = fx.h.ServeDNS(ctx, rw, req)
@@ -1643,7 +1785,7 @@ func runCase(r *vkit.Run, cs caseSpec) {
 			b0 := time.Now()
 			for k := 0; k < st.Count; k++ {
 				name := fmt.Sprintf("b%d.%s", k, st.Name)
-				breq, brw, berr, q0, q1 := fx.doQuery(name, st.Qtype, st.ID+uint16(k))
+				breq, brw, berr, q0, q1 := fx.doQuery(name, st.Qtype, st.ID+uint16(k), longCtx)
 				brecs := make([][]rec, cs.M+cs.F)
 				nSilent := 0
 				for i, s := range fx.all() {
@@ -1744,7 +1886,7 @@ func runCase(r *vkit.Run, cs caseSpec) {
 		switch st.Op {
 		case "init":
 			c0 = time.Now()
-			fx.newHandler(tag, backoff, 5*time.Second)
+			fx.newHandler(tag, backoff, 2*time.Second)
 			c1 = time.Now()
 		case "refresh":
 			var ctx context.Context
@@ -1757,7 +1899,7 @@ func runCase(r *vkit.Run, cs caseSpec) {
 				ctx, cancel = context.WithCancel(context.Background())
 				tm = time.AfterFunc(50*time.Millisecond, cancel)
 			default:
-				ctx, cancel = context.WithTimeout(context.Background(), 10*time.Second)
+				ctx, cancel = context.WithTimeout(context.Background(), 2*time.Second)
 			}
 			c0 = time.Now()
 			callErr = fx.h.Refresh(ctx)
@@ -1767,7 +1909,11 @@ func runCase(r *vkit.Run, cs caseSpec) {
 			}
 			cancel()
 		case "query":
-			req, rw, callErr, c0, c1 = fx.doQuery(st.Name, st.Qtype, st.ID)
+			qctx := longCtx
+			if st.CtxMs > 0 {
+				qctx = time.Duration(st.CtxMs) * time.Millisecond
+			}
+			req, rw, callErr, c0, c1 = fx.doQuery(st.Name, st.Qtype, st.ID, qctx)
 		}
 		// records since the previous step's end (late arrivals included)
 		recs := make([][]rec, cs.M+cs.F)
@@ -1814,10 +1960,33 @@ func runCase(r *vkit.Run, cs caseSpec) {
 				nSilent++
 			}
 		}
+		slowQ := false
 		if c1.Sub(c0) > time.Duration(nSilent)*upsTimeout+upsTimeout*9/10 {
-			r.Bucket("ambiguous_slow_call", 1)
-			tags["ambiguous"] = true
-			return
+			if st.Op != "query" {
+				r.Bucket("ambiguous_slow_call", 1)
+				tags["ambiguous"] = true
+				return
+			}
+			// A slow query is judged by its logical outcome: wait until
+			// everything the handler has sent is logged, then look.
+			slowQ = true
+			if !fx.settle() {
+				r.Bucket("ambiguous_slow_call", 1)
+				tags["ambiguous"] = true
+				return
+			}
+			for i, s := range fx.all() {
+				more := s.logFrom(logPos[i])
+				logPos[i] += len(more)
+				for _, rc := range dropLate(more) {
+					if !strings.EqualFold(rc.Name, st.Name) {
+						r.Bucket("ambiguous_late_record", 1)
+						tags["ambiguous"] = true
+						return
+					}
+					recs[i] = append(recs[i], rc)
+				}
+			}
 		}
 		for i, rs := range recs {
 			if len(rs) > 0 && dead[i] {
@@ -1853,6 +2022,65 @@ func runCase(r *vkit.Run, cs caseSpec) {
 			tr.Exp = exp
 			tr.Active = append([]bool(nil), active...)
 			trace = append(trace, tr)
+			if key != "" && slowQ {
+				xfb := xm >= 0 && has(st.TCPOff, xm)
+				if explainedBySlowStub([][]bool{active}, mm, fm, cs.Nets, o, xm, xfb) {
+					// legitimately timing-dependent
+					r.Bucket("ambiguous_slow_call", 1)
+					tags["ambiguous"] = true
+					return
+				}
+				if st.CtxMs > 0 && time.Duration(st.CtxMs)*time.Millisecond < longCtx {
+					// The request deadline itself may have been used up by a
+					// stalled process.  Confirm with a deadline that cannot be.
+					if r.Violations() > 0 {
+						r.Bucket("slow_unexplained_not_confirmed_after_a_violation", 1)
+						tags["ambiguous"] = true
+						return
+					}
+					for i := range pendingDup {
+						if pendingDup[i] {
+							r.Bucket("ambiguous_short_request_deadline", 1)
+							tags["ambiguous"] = true
+							return
+						}
+					}
+					name2 := "x." + st.Name
+					req2, rw2, err2, d0, d1 := fx.doQuery(name2, st.Qtype, st.ID^0x0101, longCtx)
+					ok2 := fx.settle()
+					recs2 := make([][]rec, cs.M+cs.F)
+					for i, s := range fx.all() {
+						recs2[i] = dropLate(s.logFrom(logPos[i]))
+						logPos[i] = s.logLen()
+						for _, rc := range recs2[i] {
+							ok2 = ok2 && strings.EqualFold(rc.Name, name2)
+						}
+					}
+					o2, mm2, both2, _ := fx.observe(req2, rw2, err2, recs2)
+					_, key2, what2, exp2, _ := judge([][]bool{active}, mm, fm, cs.Nets, o2, -1)
+					tr2 := stepTrace{Step: si, Op: "query repeated with a 10 s request deadline", StartMs: ms(d0), EndMs: ms(d1), Obs: &o2, Exp: exp2, Active: append([]bool(nil), active...)}
+					trace = append(trace, tr2)
+					if !ok2 || o2.Foreign || mm2 != "" || both2 || key2 == "" || explainedBySlowStub([][]bool{active}, mm, fm, cs.Nets, o2, -1, false) {
+						r.Bucket("ambiguous_short_request_deadline", 1)
+						tags["ambiguous"] = true
+						return
+					}
+					key, what, o = key2, what2+" (first seen with a 1 s request deadline, confirmed with a 10 s one)", o2
+					r.Bucket("slow_unexplained_confirmed_with_long_deadline", 1)
+				}
+				if o.Out.Kind == "error" {
+					for _, f := range o.ExtraFbs {
+						if fm[f] != mClosed && !has(o.StubFbs, f) {
+							key = "query:fallback-exchange-sent-nothing"
+							what = "the main upstream failed with a network error, the handler names a fallback, but nothing was ever sent to that (listening) fallback and the client got an error: " +
+								"the request's deadline was spent before the fallback exchange began"
+						}
+					}
+				}
+			}
+			if key == "" && slowQ {
+				r.Bucket("slow_queries_judged_by_outcome", 1)
+			}
 			if key != "" {
 				key = afterExtraKey(key, o, xm)
 				dp := []int{}
@@ -2099,6 +2327,12 @@ func countQuery(r *vkit.Run, tg string) {
 		r.Bucket("queries_main_neterr_no_fallbacks", 1)
 	case strings.HasPrefix(tg, "main-neterr"):
 		r.Bucket("queries_failover_after_network_error", 1)
+		if strings.HasPrefix(tg, "main-neterr:silent") {
+			r.Bucket("queries_silent_main_failover_judged", 1)
+			if strings.Contains(tg, "fb-answer") {
+				r.Bucket("queries_silent_main_answered_by_fallback", 1)
+			}
+		}
 	case strings.HasPrefix(tg, "no-active-main"):
 		r.Bucket("queries_fallback_no_active_main", 1)
 	}
@@ -2259,7 +2493,7 @@ func runConcurrent(r *vkit.Run, idx int) {
 					x = x*6364136223846793005 + 1442695040888963407
 					name := fmt.Sprintf("q%d.g%d.r%d.%s.C17.verif.test.", k, g, rd, tag)
 					q := qr{name: name}
-					q.req, q.rw, q.err, q.c0, q.c1 = fx.doQuery(name, qtypes[int(x>>40)%len(qtypes)], uint16(x>>17))
+					q.req, q.rw, q.err, q.c0, q.c1 = fx.doQuery(name, qtypes[int(x>>40)%len(qtypes)], uint16(x>>17), longCtx)
 					results[g] = append(results[g], q)
 				}
 			}(g)
@@ -2296,7 +2530,7 @@ func runConcurrent(r *vkit.Run, idx int) {
 		for k := 0; k < 3; k++ {
 			name := fmt.Sprintf("t%d.r%d.%s.c17.verif.test.", k, rd, tag)
 			q := qr{name: name}
-			q.req, q.rw, q.err, q.c0, q.c1 = fx.doQuery(name, dns.TypeA, uint16(rng.UintN(65536)))
+			q.req, q.rw, q.err, q.c0, q.c1 = fx.doQuery(name, dns.TypeA, uint16(rng.UintN(65536)), longCtx)
 			tail = append(tail, q)
 		}
 		recs := make([][]rec, M+F)
@@ -2388,7 +2622,8 @@ func TestCheck(t *testing.T) {
 		"concurrent: queries from 6 goroutines concurrent with Refresh under the race detector, judged against the union of the active sets before/after")
 	r.Assume("the health check is driven only by explicit Refresh calls (no background worker started by the harness)")
 	r.Assume("back-off decisions are judged by interval arithmetic on monotonic timestamps taken around each call; undecidable ones follow the observation and are counted in ambiguous_backoff_boundary")
-	r.Assume("a call that lasted at least one upstream timeout longer than the silent stubs it reached can explain may hide a spurious timeout of a replying stub: the rest of that case is dropped (ambiguous_slow_call)")
+	r.Assume("queries run with a 1 s request deadline (one in 25 with 10 s), upstream timeout 150 ms; a slow QUERY is judged by its logical outcome after a barrier on every stub socket: only an outcome that becomes legitimate when a stub that did receive the query is taken to have been too slow is ambiguous; an unexplained outcome seen with the 1 s deadline is repeated once with 10 s before it is reported")
+	r.Assume("a Refresh / burst / concurrent-phase call that lasted at least one upstream timeout longer than the silent stubs it reached can explain may hide a spurious timeout of a replying stub: the rest of that case is dropped (ambiguous_slow_call)")
 	r.Assume("stubs listen on a loopback address derived from the pid (127.64+x.y.z) and on ports outside the ephemeral range, and their replies carry a per-fixture nonce: a reply with a foreign nonce drops the case (ambiguous_foreign_reply)")
 	r.Assume("a closed stub cannot record requests; that a closed upstream was tried is inferred (or taken from forward.Error / MetricsListener when they name it)")
 	r.Assume("a SERVFAIL reply with matching ID/question is a reply of the chosen main upstream: it is relayed and does not trigger the fallback")
@@ -2444,6 +2679,8 @@ func TestCheck(t *testing.T) {
 		"extra_message:cases_with_3_later_answers":          30,
 		"extra_message:cases_with_3_later_answers:tcp":      8,
 		"extra_message:cases_with_3_later_answers:udp":      3,
+		"queries_silent_main_failover_judged":               100,
+		"queries_silent_main_answered_by_fallback":          60,
 		"backoff_held_after_context_ended_probe":            8,
 		"queries_failover_after_network_error":              70,
 		"queries_fallback_no_active_main":                   120,
